@@ -142,6 +142,15 @@ Definition get_tag (p : profile) (k : kind) (m : mem) (r : dref) : res (option t
   | (Some g, _) => t <- cast_kind p k m g ;; Val (Some t)
   end.
 
+(* the same generic getter instantiated with a user-defined tag type T (its ID and type descriptor) *)
+Definition get_tag_user (p : profile) (typ : N) (T : tdesc) (m : mem) (r : dref) : res (option tref) :=
+  let b := d_off r + 8 in
+  x <- tagiter_find (iter_fuel (d_plen r)) p HTagH m b (d_plen r) 0 typ ;;
+  match x with
+  | (None, _) => Val None
+  | (Some g, _) => t <- cast p HTagH T m g ;; Val (Some t)
+  end.
+
 (* ModuleIter::next: self.iter.find(typ == Module).map(|tag| tag.cast()) ; run to the end *)
 Fixpoint modules_run (fuel : nat) (p : profile) (m : mem) (b blen nxt : N) : list tref * res unit :=
   match fuel with
